@@ -185,7 +185,11 @@ template <typename NumericType>
   std::ostringstream stream;
   if (absolute < 1.0) {
     // Interval: [0, 1[
-    if (absolute < 0.001) {
+    // The bounds 0.001, 0.01, and 0.1 are not exactly representable as binary floating-point
+    // numbers, and a long double can lie between such a bound and its double-precision literal. The
+    // comparisons with these bounds are therefore made exactly with a fused multiply-add, whose
+    // single rounding preserves the sign of absolute * 10^n - 1.
+    if (std::fma(absolute, static_cast<NumericType>(1000), static_cast<NumericType>(-1)) < 0) {
       // Interval: [0, 0.001[
       if (absolute == 0.0) {
         // Interval: [0, 0]
@@ -197,9 +201,9 @@ template <typename NumericType>
       }
     } else {
       // Interval: [0.001, 1[
-      if (absolute < 0.1) {
+      if (std::fma(absolute, static_cast<NumericType>(10), static_cast<NumericType>(-1)) < 0) {
         // Interval: [0.001, 0.1[
-        if (absolute < 0.01) {
+        if (std::fma(absolute, static_cast<NumericType>(100), static_cast<NumericType>(-1)) < 0) {
           // Interval: [0.001, 0.01[
           stream << std::fixed
                  << std::setprecision(std::numeric_limits<NumericType>::max_digits10 + 3) << value;
